@@ -120,6 +120,16 @@ def ptrace_out(J, d):
 
 
 def worker(st, ctx):
+    from ..common import library_raised
+    try:
+        return _worker(st, ctx)
+    except Exception as e:  # noqa: BLE001
+        if not library_raised(e):
+            raise
+        return {"findings": [("raised", "%s: %s" % (type(e).__name__, e))], "gs": st["gs"], "ctx": ctx}
+
+
+def _worker(st, ctx):
     """one Tomograph state of LwTomo: program gs with exact rho, choi, fidelities"""
     import lightworks as lw
     from lightworks import tomography as tm
